@@ -33,7 +33,7 @@ func (s *stdSvc) gSenderVia(rt *rapid.T, g stdIngress, fromPort int) AVia {
 	case 0:
 		v.Host, v.Port = s.ip(10+g.UA), fromPort
 	case 1:
-		v.Host, v.Port = s.ip(10+(g.UA+1)%4), rapid.SampledFrom([]int{5060, 6010}).Draw(rt, "otherport") // another endpoint
+		v.Host, v.Port = s.ip(10+(g.UA+1)%4), rapid.SampledFrom([]int{5060, 6010, s.high}).Draw(rt, "otherport") // another endpoint
 	case 2:
 		v.Host, v.Port = rapid.SampledFrom([]string{"ua-a.test", "ua-b.test"}).Draw(rt, "alias"), rapid.SampledFrom([]int{5060, 6010, 0}).Draw(rt, "aliasport")
 	case 3:
@@ -47,7 +47,7 @@ func (s *stdSvc) gSenderVia(rt *rapid.T, g stdIngress, fromPort int) AVia {
 	case 0:
 		v.Params = gInsertParam(rt, "rppos", v.Params, AParam{K: "rport"})
 	case 1:
-		v.Params = gInsertParam(rt, "rppos", v.Params, AParam{K: "rport", V: strconv.Itoa(rapid.SampledFrom([]int{5060, 6010}).Draw(rt, "spoofedrport")), HasV: true})
+		v.Params = gInsertParam(rt, "rppos", v.Params, AParam{K: "rport", V: strconv.Itoa(rapid.SampledFrom([]int{5060, 6010, s.high}).Draw(rt, "spoofedrport")), HasV: true})
 	}
 	if rapid.IntRange(0, 2).Draw(rt, "received") == 0 {
 		v.Params = gInsertParam(rt, "rcvpos", v.Params, AParam{K: "received", V: s.ip(10 + rapid.IntRange(0, 3).Draw(rt, "spoofedrcv")), HasV: true})
@@ -56,8 +56,8 @@ func (s *stdSvc) gSenderVia(rt *rapid.T, g stdIngress, fromPort int) AVia {
 }
 
 func TestC07(t *testing.T) {
-	V.Rule("lab (services started from generated YAML text, no-received absent / false / true per listen entry): requests from user agents at distinct loopback addresses over UDP (from port 5060 or 6010) and over accepted TCP connections, and requests a TCP backend sends over the connection the proxy opened to it; the sender's top Via names its own or another endpoint, an alias or a foreign host, with rport absent / valueless / pre-filled with a wrong port, received absent / spoofed, further parameters around them, more Via entries beneath, laid out in any way; plus bursts of 2-40 requests sent back to back from several source sockets (each must be stamped with its own source). Oracle at the next hop: sender's entry = as sent with received=<source IP> (exactly one) and rport=<source port> iff rport was present; every other parameter and entry textually untouched; with received-support off the entry is textually the one sent. Then the backend answers and the response must arrive at (source IP, source port) if rport was requested, (source IP, sent-by port) otherwise, at the sent-by/received address as written when support is off, on the same connection for TCP. non-trivial = spoofed received or pre-filled rport, or sent-by different from the source; distinct by (instance, ingress, sender Via)")
-	V.Require("engine:bin (real binary)", "support:on", "support:off", "ingress:udp", "ingress:tcp-accepted", "ingress:tcp-outbound-to-backend", "spoofed received", "pre-filled rport", "valueless rport", "no rport", "sent-by is another endpoint", "response returned to true source", "burst: >=2 sources interleaved")
+	V.Rule("lab (services started from generated YAML text, no-received absent / false / true per listen entry): requests from user agents at distinct loopback addresses over UDP (from port 5060, 6010 or one beyond 32767) and over accepted TCP connections, and requests a TCP backend sends over the connection the proxy opened to it; the sender's top Via names its own or another endpoint, an alias or a foreign host, with rport absent / valueless / pre-filled with a wrong port, received absent / spoofed, further parameters around them, more Via entries beneath, laid out in any way; plus bursts of 2-40 requests sent back to back from several source sockets (each must be stamped with its own source). Oracle at the next hop: sender's entry = as sent with received=<source IP> (exactly one) and rport=<source port> iff rport was present; every other parameter and entry textually untouched; with received-support off the entry is textually the one sent. Then the backend answers and the response must arrive at (source IP, source port) if rport was requested, (source IP, sent-by port) otherwise, at the sent-by/received address as written when support is off, on the same connection for TCP. non-trivial = spoofed received or pre-filled rport, or sent-by different from the source; distinct by (instance, ingress, sender Via)")
+	V.Require("source port beyond 32767", "engine:bin (real binary)", "support:on", "support:off", "ingress:udp", "ingress:tcp-accepted", "ingress:tcp-outbound-to-backend", "spoofed received", "pre-filled rport", "valueless rport", "no rport", "sent-by is another endpoint", "response returned to true source", "burst: >=2 sources interleaved")
 	vars := []stdVariant{
 		{NoReceived: [3]string{"", "false", "true"}},
 		{NoReceived: [3]string{"true", "", "false"}, Keep: "on"},
@@ -92,6 +92,10 @@ func TestC07(t *testing.T) {
 			srcEP = s.uas[g.UA]
 			if rapid.Bool().Draw(rt, "from6010") {
 				srcEP = s.uas2[g.UA]
+				if rapid.Bool().Draw(rt, "from a port beyond 32767") {
+					srcEP = s.uas3[g.UA]
+					V.Class("source port beyond 32767")
+				}
 			}
 			srcPort = srcEP.port
 			l := s.in.cfg.Listens[g.Entry]
@@ -258,6 +262,9 @@ func TestC07(t *testing.T) {
 			src := s.uas[ua]
 			if rapid.Bool().Draw(rt, "from6010") {
 				src = s.uas2[ua]
+				if rapid.Bool().Draw(rt, "from a port beyond 32767") {
+					src = s.uas3[ua]
+				}
 			}
 			id := s.nextID("c07burst-")
 			own := AVia{Proto: "SIP", Ver: "2.0", Transport: "UDP", Host: s.ip(10 + (ua+1)%4), Port: 5060, Params: []AParam{{K: "branch", V: "z9hG4bK" + id, HasV: true}, {K: "rport"}}}
